@@ -94,9 +94,65 @@ def rule_valid_before_insert(ctx, prog, an, rule, ca=None):
            "is_valid (with its closures) %s TemplateField.field_length" % ("reads" if reads else "never reads"))
 
 
+def rule_template_reaches_cache(ctx, prog, an, rule, ca=None, only_adt=None):
+    """(a) every template that parses (and is valid) is written to the cache on every path to the Ok result
+    (straight-line form: the write block cuts all paths from the parse to the Ok aggregate; loop form: every
+    iteration of the per-template loop passes the write); (b) the template reported in the result is the parsed
+    one; (c) all write accessors are overwriting ones."""
+    ca = ca or CacheAccess(prog, an)
+    variants = {"templates": "Template", "options_templates": "OptionsTemplate"}
+    for adt in PARSER_ADTS:
+        if only_adt and adt != only_adt:
+            continue
+        short = adt.rsplit("::", 1)[1]
+        ws = [w for w in ca.writes if w["adt"] == adt]
+        bad = [v for v in ca.violations if any(adt in str(x) for x in v[2:]) or (v[0].path.startswith(adt.rsplit("::", 1)[0] + "::"))]
+        for (b, st, detail, why) in bad:
+            ctx.ob(rule, b.path, "cache-discipline:%s" % detail, False, why, site=st)
+        bodies = {}
+        for w in ws:
+            bodies.setdefault(w["body"].path, (w["body"], []))[1].append(w)
+        for field, variant in sorted(variants.items()):
+            fw = [w for w in ws if w["field"] == field and w["kind"] in ("insert", "extend")]
+            if not fw:
+                ctx.ob(rule, adt, "write-site:%s" % field, False, "no overwriting write (insert/extend) into %s.%s" % (short, field))
+                continue
+            for w in fw:
+                b = w["body"]
+                # Ok aggregates reporting this kind of template
+                oks = [(blk, i, s) for (blk, i, s) in block_aggs(b) if s["rv"]["adt"].endswith("::FlowSetBody") and s["rv"]["variant"] == variant]
+                if not oks:
+                    ctx.ob(rule, b.path, "reports:%s" % variant, False, "write into %s.%s but no FlowSetBody::%s is reported from this function" % (short, field, variant))
+                    continue
+                loops = b.sccs()
+                in_loop = [c for c in loops if w["block"] in c]
+                for (ob, i, s) in oks:
+                    if in_loop:
+                        comp = set(min(in_loop, key=len))
+                        # every cycle of the per-template loop must pass the write
+                        from .c01 import has_cycle
+                        bypass = has_cycle(b, comp - {w["block"]})
+                        # and the loop itself must cut entry -> Ok (it iterates the parsed templates)
+                        ctx.ob(rule, b.path, "written-on-every-iteration:%s.%s" % (short, field), not bypass,
+                               "the per-template loop has a path that skips the cache write (conditional insert): a parsed template may be reported but not cached" if bypass
+                               else "every iteration of the per-template loop writes the cache", site=b.line(w["block"]))
+                    else:
+                        reach = b.reachable(0, without_blocks=(w["block"],))
+                        ctx.ob(rule, b.path, "written-before-reported:%s.%s" % (short, field), ob not in reach,
+                               "FlowSetBody::%s can be reported without passing the cache write at %s" % (variant, b.line(w["block"])) if ob in reach
+                               else "every path to the reported FlowSetBody::%s passes the cache write" % variant, site=b.line(ob))
+                    # reported = parsed
+                    rep = peel(an.op(b, s["rv"]["ops"][0]))
+                    okp, _ = is_template_parse_payload(an, prog, rep, b, adt, field)
+                    direct = rep[0] == "tfield" and rep[2] == 1 and rep[1][0] == "ok"
+                    ctx.ob(rule, b.path, "reported-is-parsed:%s" % variant, bool(okp and direct),
+                           "reported FlowSetBody::%s payload = %s" % (variant, canon(rep)[:200]), site=site(s["span"]))
+
+
 def run(ctx, env):
     prog = env.prog("default")
     an = An(prog)
+    ctx.rule("R6.8", "every template that parses is written to the cache on every path to the reported result (no conditional / skipped write), and the template reported in the result is the parsed one")
     ctx.rule("R6.1", "every mutable access path to a cache map ends in insert / extend (or remove, see R6.6); no overwrite of parser state, no &mut parser to external code, no escaping map reference; shared accesses end in contains_key / get")
     ctx.rule("R6.2", "each write stores the Ok payload of a complete template-record parse of the function's own input under that value's template_id; IPFIX writes are dominated by is_valid()==true on the stored value")
     ctx.rule("R6.3", "each contains_key / get uses the wire id argument as key and a field of the function's own parser argument as receiver")
@@ -153,6 +209,7 @@ def run(ctx, env):
                    "extend source = %s" % canon(s)[:200], site=b.line(w["block"]))
     rule_valid_before_insert(ctx, prog, an, "R6.2", ca)
 
+    rule_template_reaches_cache(ctx, prog, an, "R6.8", ca)
     # R6.3
     for r in ca.reads:
         b, t, c = r["body"], r["term"], r["callee"]
